@@ -306,7 +306,9 @@ AlignedIfAlignStack(P, S) ==
   (Entered(S) /\ P.alignreq) => S.spBody % AbiStackAlign(P.abi) = 0
 BodyStackNeutral(P, S) == S.phase \in {"epi", "done"} => S.spExit = S.spBody
 
-\* scratch registers handed to the patch (static)
+\* scratch registers handed to the patch (static); reads: the registers the
+\* patch declared it reads or clobbers itself (by register identity, however
+\* the patch spelled them)
 ScratchOK(abi, scratch, requested, reads) ==
   /\ Len(scratch) = requested
   /\ Cardinality(SeqToSet(scratch)) = Len(scratch)
